@@ -180,6 +180,7 @@ class LinearSuite:
         self.hash_cases = []
         self.max_hash_cases = 0
         self.nviol = 0
+        self.silent_rerun = True
 
     def run_case(self, width, depth, alphabet, nslots, prog, pred=None, nontrivial=None):
         """pred(i, op, slot, before, after, bm, universe) -> None | dict describing the failure.
@@ -207,6 +208,33 @@ class LinearSuite:
                     st["bad"] = (i, v)
         for i, op in enumerate(prog):
             step(i, op)
+        if st["bad"] is None and self.silent_rerun:
+            # The same program once more WITHOUT any observation between the operations (the pass above queries every
+            # key before and after every operation, which rewrites the sketch's scratch state, e.g. `buckets`): a history
+            # is a history whether or not somebody looked in between, so the raw state must be the same.  Added after
+            # seeded change C01_add_reuses_remembered_buckets (stale scratch state reused by the next add) was missed.
+            bad2 = self._silent(mk, width, depth, nslots, prog, slots)
+            if bad2 is not None and self.nviol < 3:
+                # shortest prefix that shows it
+                n = len(prog)
+                for m in range(1, len(prog)):
+                    ref = [Slot(mk(), width, depth) for _ in range(nslots)]
+                    try:
+                        for op in prog[:m]:
+                            snapshot(ref[op[1]].sk, universe)
+                            apply_op(ref[op[1]], op, ref, ctx.dir)
+                            snapshot(ref[op[1]].sk, universe)
+                    except Exception:
+                        continue
+                    if self._silent(mk, width, depth, nslots, prog[:m], ref) is not None:
+                        n, bad2 = m, self._silent(mk, width, depth, nslots, prog[:m], ref)
+                        break
+                ctx.violation({"width": width, "depth": depth, "program": prog_json(prog[:n]),
+                               "mode": "operations applied back to back, no query between them",
+                               "failed": bad2, "bucket_map": {str(list(k)): c for k, c in bm.items()}},
+                              self.what + " [the state after the same operations differs when no query() is made between them: "
+                              "it is not the state of this history]")
+                self.nviol += 1
         if st["bad"] and self.nviol < 3:
             i, v = st["bad"]
             small, v2 = self.shrink(width, depth, alphabet, nslots, prog[:i + 1], pred)
@@ -229,6 +257,25 @@ class LinearSuite:
         ctx.count("len<=5" if len(prog) <= 5 else "len<=15" if len(prog) <= 15 else "len>15")
         ctx.count(f"width={width}" if width <= 4 else "width>4")
         return slots, bm, universe
+
+    def _silent(self, mk, width, depth, nslots, prog, observed_slots):
+        """run prog on fresh sketches without touching them between the operations; None if every slot ends in the raw
+        state of the observed run, else a description"""
+        import numpy as np
+        slots2 = [Slot(mk(), width, depth) for _ in range(nslots)]
+        try:
+            for op in prog:
+                apply_op(slots2[op[1]], op, slots2, self.ctx.dir)
+        except Exception as e:
+            return {"raised_without_observation": f"{type(e).__name__}: {e}"}
+        for j, (a, b) in enumerate(zip(observed_slots, slots2)):
+            ta, tb = np.asarray(a.sk.cms), np.asarray(b.sk.cms)
+            if ta.shape != tb.shape or not np.array_equal(ta, tb) or int(a.sk.n_added()) != int(b.sk.n_added()) \
+                    or int(a.sk.n_records()) != int(b.sk.n_records()):
+                return {"slot": j, "table_with_queries_between_operations": ta.tolist(), "table_without": tb.tolist(),
+                        "n_added": [int(a.sk.n_added()), int(b.sk.n_added())],
+                        "n_records": [int(a.sk.n_records()), int(b.sk.n_records())]}
+        return None
 
     def _fails(self, width, depth, alphabet, nslots, prog, pred):
         """re-run a program on fresh sketches; return the predicate's failure dict or None"""
